@@ -931,6 +931,17 @@ impl Gen {
                 self.tag(format!("bin:{}:{}", op.sym(), ty_tag(&ot)));
                 Expr::new(Ty::Bool, EK::Bin(op, Box::new(l), Box::new(r)))
             }
+            "eq" if self.rng.chance(1, 3) && self.near_copy_root().is_some() => {
+                // a record compared with a copy of itself that differs in exactly one
+                // (possibly deeply nested) leaf: the comparison has to look at that leaf
+                let (root, rty) = self.near_copy_root().expect("checked");
+                let op = if self.rng.bool() { BinOp::Eq } else { BinOp::Ne };
+                let l = Expr::new(rty.clone(), EK::Path(root.clone(), vec![]));
+                let mut depth_reached = 0;
+                let r = self.near_copy(&root, &mut Vec::new(), &rty, &mut depth_reached);
+                self.tag(format!("bin:{}:near-copy:depth{}", op.sym(), depth_reached));
+                Expr::new(Ty::Bool, EK::Bin(op, Box::new(l), Box::new(r)))
+            }
             "eq" => {
                 let ot = if self.rng.chance(1, 2) { self.scalar_ty() } else { self.value_ty(2) };
                 let op = if self.rng.bool() { BinOp::Eq } else { BinOp::Ne };
@@ -1055,6 +1066,66 @@ impl Gen {
 
     /// Two operands of the same type for a context that does not fix it:
     /// the left one is generated self-typed, the right one may lean on it.
+    /// A visible variable of a record type (for `near_copy`).
+    fn near_copy_root(&self) -> Option<(String, Ty)> {
+        let c: Vec<(String, Ty)> = self
+            .visible()
+            .into_iter()
+            .filter(|v| self.prog.record_fields(&v.ty).is_some_and(|f| !f.is_empty()))
+            .map(|v| (v.name.clone(), v.ty.clone()))
+            .collect();
+        if c.is_empty() {
+            return None;
+        }
+        // deterministic choice that does not consume random numbers in the guard: the
+        // most deeply nested record
+        let mut best = 0;
+        for i in 1..c.len() {
+            if self.rec_depth(&c[i].1, 4) > self.rec_depth(&c[best].1, 4) {
+                best = i;
+            }
+        }
+        Some(c[best].clone())
+    }
+
+    fn rec_depth(&self, ty: &Ty, fuel: u32) -> u32 {
+        if fuel == 0 {
+            return 0;
+        }
+        match self.prog.record_fields(ty) {
+            Some(fs) if !fs.is_empty() => 1 + fs.iter().map(|(_, t)| self.rec_depth(t, fuel - 1)).max().unwrap_or(0),
+            _ => 0,
+        }
+    }
+
+    /// A literal that copies `root.fields` field by field except for one leaf, which
+    /// gets a fresh value.
+    fn near_copy(&mut self, root: &str, fields: &mut Vec<String>, ty: &Ty, depth: &mut u32) -> Expr {
+        let Some(fs) = self.prog.record_fields(ty).filter(|f| !f.is_empty()) else {
+            return self.expr(ty, 1, true);
+        };
+        *depth += 1;
+        // prefer fields that are records themselves and fields that are not the first one
+        let ws: Vec<u32> = fs
+            .iter()
+            .enumerate()
+            .map(|(i, (_, t))| if self.rec_depth(t, 4) > 0 { 6 } else { 1 } + if i > 0 { 1 } else { 0 })
+            .collect();
+        let j = self.rng.weighted(&ws);
+        let mut out = Vec::new();
+        for (i, (n, ft)) in fs.iter().enumerate() {
+            fields.push(n.clone());
+            let v = if i == j { self.near_copy(root, fields, ft, depth) } else { Expr::new(ft.clone(), EK::Path(root.to_string(), fields.clone())) };
+            fields.pop();
+            out.push((n.clone(), v));
+        }
+        let named = match ty {
+            Ty::Named(d, args) if args.is_empty() => Some(*d),
+            _ => None,
+        };
+        Expr::new(ty.clone(), EK::RecLit(named, out))
+    }
+
     fn operand_pair(&mut self, ty: &Ty, d: u32) -> (Expr, Expr) {
         let l = if self.self_typed_possible(ty) { self.expr(ty, d, false) } else { self.via_block(ty, d) };
         let r = self.expr(ty, d, true);
